@@ -91,6 +91,15 @@ def corpus(tier):
         src.append(('doc:%d' % i, lead + r.choice(['"""module docstring"""\n', "'''doc\nstring'''\n", '"d"\n']) + body, 'exec'))
     for i, t in enumerate(['', '\n', '\n\n\n', '# only a comment\n', '# a\n\n# b\n', '"""only a docstring"""\n', 'pass\n', '\n\n\npass\n']):
         src.append(('tiny:%d' % i, t, 'exec'))
+    # characters that may continue an identifier but not start one (combining marks, digits of other scripts, connector punctuation): the same character inside
+    # a name (valid) and at the start of a token (invalid) in different sources - what the lexer answers for one must not depend on which it was asked first
+    for i, ch in enumerate(['\u0663', '\u0664', '\u0301', '\u0308', '\u203f', '\u0903', '\u0e31', '\u06f5', '\uff10', '\u0966', '\u0967', '\u1040', '\u20dd'[:0] or '\u0300', '\u0483', '\u05bf', '\u0e50', '\u0f20', '\u1810', '\ua620', '\ufe33']):
+        src.append(('identin:%d' % i, 'x%s = 1\nprint(x%s)\n' % (ch, ch), 'exec'))
+        src.append(('identin2:%d' % i, 'def f(a%sb):\n    return a%sb\n' % (ch, ch), 'exec'))
+        src.append(('identstart:%d' % i, 'y = %s\n' % ch, 'exec'))
+        src.append(('identstart2:%d' % i, '%sx = 1\n' % ch, 'exec'))
+        src.append(('identeval:%d' % i, 'q%s' % ch, 'eval'))
+        src.append(('identevalbad:%d' % i, '%s' % ch, 'eval'))
     # inputs that fail to compile: only the error type must repeat
     for i, bad in enumerate(['def f(:\n', 'x = = 1\n', 'return 1\n', 'def f(a, a): pass\n', 'nonlocal x\n', 'def f():\n    x = 1\n    global x\n', 'break\n', 'f(**k, *a)\n', '"\\N{BOGUS}"\n', 'class C:\n    return 1\n', 'def f():\n  yield\n  return 1\n x\n']):
         src.append(('bad:%d' % i, bad, 'exec'))
